@@ -32,6 +32,8 @@ struct St {
     once_runs: u64,
     szx_positions: u64,
     host_pokes: u64,
+    troubled_tapes: u64,
+    steps_reporting_errors: u64,
     sample: Vec<J>,
 }
 
@@ -118,6 +120,20 @@ fn conservation(ctx: &Ctx, rng: &mut Rng, is128: bool, st: &mut St, case: u64) {
     } else {
         m.set_clock(clock0);
     }
+    // a playing tape that makes trouble – an empty block in the image, or an asset whose reads fail –
+    // is reported through emulate_frames' result; emulated time goes on regardless
+    if rng.chance(1, 8) {
+        let mut img: Vec<u8> = vec![];
+        if rng.bool() {
+            img.extend_from_slice(&[0, 0]);
+        }
+        img.extend_from_slice(&[3, 0, 0xFF, 0x12, 0xED]);
+        let asset = if rng.bool() { crate::host::mem_asset(img) } else { crate::host::DynAsset(Box::new(crate::host::Faulty { inner: crate::host::ShortRead::new(img, 1 + rng.below(8) as usize), ops: Default::default(), fail_at: 1 + rng.below(6), kind: rng.below(3) as u8, sticky: rng.bool() })) };
+        if m.emu.load_tape(rustzx_core::host::Tape::Tap(asset)).is_ok() {
+            m.emu.play_tape();
+            st.troubled_tapes += 1;
+        }
+    }
     let mut expected_total: u64 = 0;
     let mut wraps: u64 = 0;
     let mut prev_clock = clock0;
@@ -157,7 +173,11 @@ fn conservation(ctx: &Ctx, rng: &mut Rng, is128: bool, st: &mut St, case: u64) {
             break;
         }
         let dur = md.run(&cy, t) - t;
-        m.step();
+        // (with a troubled tape in the deck the call may report an error: the CPU has executed its
+        // instruction all the same, and its T-states count)
+        if m.step_res().is_err() {
+            st.steps_reporting_errors += 1;
+        }
         if is128 {
             let (v, _) = m.emu.verif_paging();
             md.bank = v & 7;
@@ -493,6 +513,8 @@ pub fn run(ctx: &Ctx) -> Evidence {
         ev.add_num("once_per_frame_runs", r.once_runs);
         ev.add_num("conservation_cases_positioned_by_szx_load", r.szx_positions);
         ev.add_num("host_pokes_between_instructions", r.host_pokes);
+        ev.add_num("conservation_cases_with_a_troubled_tape_playing", r.troubled_tapes);
+        ev.add_num("steps_whose_call_reported_an_error", r.steps_reporting_errors);
         over.extend(r.overruns);
         for s in r.sample {
             ev.sample(s);
